@@ -602,6 +602,9 @@ pub fn expand(line: &str) -> Option<(String, Box<dyn FnOnce(&mut Ctx) -> String>
                             "SetDefaultFeeRate" => FeeTier::try_deserialize(&mut &d[..]).ok().map(|w| (w.default_fee_rate as u64, v16 as u64)),
                             "SetDefaultProtocolFeeRate" => WhirlpoolsConfig::try_deserialize(&mut &d[..]).ok().map(|w| (w.default_protocol_fee_rate as u64, v16 as u64)),
                             "SetDefaultBaseFeeRate" => AdaptiveFeeTier::try_deserialize(&mut &d[..]).ok().map(|w| (w.default_base_fee_rate as u64, v16 as u64)),
+                            // flags: the badge's non-transferable-position attribute, the config's token-badge feature
+                            "SetTokenBadgeAttribute" => TokenBadge::try_deserialize(&mut &d[..]).ok().map(|b| (b.attribute_require_non_transferable_position as u64, v % 2)),
+                            "SetConfigFeatureFlag" => WhirlpoolsConfig::try_deserialize(&mut &d[..]).ok().map(|c| (c.feature_flags().contains(ConfigFeatureFlags::TOKEN_BADGE) as u64, v % 2)),
                             _ => None,
                         };
                         if let Some((got, want)) = stored {
